@@ -279,6 +279,11 @@ impl ShmWrite for ShmWriter {
             };
             generation.store(gen, atomic::Ordering::Release);
 
+            // A release store only orders the accesses that precede it. Without this fence, the
+            // update of the record below may become visible to a reader before the odd generation
+            // number does (e.g. on ARM), letting it accept a mix of the old and the new record.
+            atomic::fence(atomic::Ordering::Release);
+
             self.ceb.write(*ceb);
 
             // Mark the end of the update into the memory segment by incrementing the generation
